@@ -315,7 +315,9 @@ static __attribute__((pure)) long int
 __strf_tot_corr(struct dt_dtdur_s dur)
 {
 	if (dur.durtyp == DT_DURS && dur.tai) {
-		return dur.corr;
+		/* the sign is printed separately, so the correction must
+		 * lengthen the magnitude for negative durations too */
+		return dur.soft < 0 ? -dur.corr : dur.corr;
 	}
 	/* otherwise no corrections */
 	return 0;
@@ -444,6 +446,11 @@ static struct precalc_s {
 	with (int64_t S = __strf_tot_secs(dur), d = __strf_tot_days(dur)) {
 		us = d * (int)SECS_PER_DAY + S;
 		res.neg = dur.neg || us < 0;
+		if (UNLIKELY(dur.tai) && dur.durtyp == DT_DURS) {
+			/* S is net of leap seconds and can be nought
+			 * although the operands are in reverse order */
+			res.neg |= dur.soft < 0;
+		}
 		us = us >= 0 ? us : -us;
 	}
 
